@@ -585,13 +585,14 @@ fn string_cases(thorough: bool) -> Vec<(String, Vec<StrSpec>)> {
     }
     let mut pairs: Vec<(String, String)> = vcore::collide::pairs().iter().map(|(_, a, b)| (a.clone(), b.clone())).collect();
     pairs.extend(vcore::sjis::suffix_pairs());
+    pairs.extend(vcore::sjis::case_pairs());
     for (i, (a, b)) in pairs.iter().enumerate() {
         v.push((format!("string pair #{}", i), vec![[Some(a.clone()), Some(b.clone()), None, None, Some(a.clone())], [Some(b.clone()), None, Some(a.clone()), Some(b.clone()), None]]));
     }
     for (i, chunk) in vcore::sjis::domain().chunks(60).enumerate() {
         v.push((format!("domain characters #{}", i), chunk.chunks(3).map(|c| -> StrSpec { [Some(format!("{}n", c[0])), c.get(1).map(|x| x.to_string()), None, c.get(2).map(|x| format!("a{}", x)), None] }).collect()));
     }
-    let (nl, nc) = if thorough { (1300usize, 2500usize) } else { (300, 600) };
+    let (nl, nc) = if thorough { (4400usize, 2500usize) } else { (1700, 600) };
     for l in 0..=nl {
         let a: String = "abcdefghijklmnopqrstuvwxyz".chars().cycle().take(l).collect();
         let b: String = (if l % 2 == 1 { "z" } else { "" }).to_string() + &"漢字".chars().cycle().take(l / 2).collect::<String>(); // lead bytes at odd offsets for odd l, even for even l
